@@ -541,8 +541,31 @@ func (s *SwapService) estimateMaximumSwapAmountSat(chain string) (uint64, error)
 	return 0, errors.New("invalid chain")
 }
 
+// swapIdKnown reports whether a swap with this id already exists, be it active
+// or only in the store (finished, or not yet recovered after a restart).
+func (s *SwapService) swapIdKnown(swapId *SwapId) bool {
+	if _, err := s.GetActiveSwap(swapId.String()); err == nil {
+		return true
+	}
+	if _, err := s.swapServices.swapStore.GetData(swapId.String()); err == nil {
+		return true
+	}
+	return false
+}
+
+// errSwapIdInUse is returned for a request that reuses a known swap id.  No
+// message is sent back: a cancel carrying that id would reach the existing
+// swap of an honest counterparty whose request was merely delivered twice.
+func errSwapIdInUse(swapId *SwapId) error {
+	return fmt.Errorf("swap id %s is already in use", swapId.String())
+}
+
 // OnSwapInRequestReceived creates a new swap-in process and sends the event to the swap statemachine
 func (s *SwapService) OnSwapInRequestReceived(swapId *SwapId, peerId string, message *SwapInRequestMessage) error {
+	// A request must never replace a swap we already know under this id.
+	if s.swapIdKnown(swapId) {
+		return errSwapIdInUse(swapId)
+	}
 	var (
 		premiumValue int64
 		err          error
@@ -654,6 +677,10 @@ func (s *SwapService) OnSwapInRequestReceived(swapId *SwapId, peerId string, mes
 
 // OnSwapOutRequestReceived creates a new swap-out process and sends the event to the swap statemachine
 func (s *SwapService) OnSwapOutRequestReceived(swapId *SwapId, peerId string, message *SwapOutRequestMessage) error {
+	// A request must never replace a swap we already know under this id.
+	if s.swapIdKnown(swapId) {
+		return errSwapIdInUse(swapId)
+	}
 	var (
 		premiumValue int64
 		err          error
